@@ -3,6 +3,8 @@
 ``L`` is the lentil module under test.  Nothing here re-implements lentil; every entry is
 one public API call (or attribute access) on the real code.
 """
+import os
+
 import numpy as np
 
 
@@ -59,6 +61,145 @@ def _crop_idx(L, s, i, j):
     i = max(0, min(int(i), n - 1))
     j = max(i, min(int(j), n - 1))
     return s.crop(s.wave[i] * (1 - 1e-12), s.wave[j] * (1 + 1e-12))
+
+
+def _churn_planes(L, w, names):
+    """A loop a user writes: a plane is built by type name, applied once and dropped before the next one is built.  Each plane (and the
+    type object made for it) is short-lived, so the next one is usually placed at the address the previous one had -- whatever the
+    allocator does, the outcome of every product is a function of the two types."""
+    out = []
+    for n in names:
+        p = L.Plane(ptype=n)
+        try:
+            r = p.multiply(w)
+            out.append(str(r.ptype))
+            del r
+        except Exception as e:      # noqa
+            out.append(type(e).__name__)
+        del p
+    return out
+
+
+_FOREIGN = """
+import pickle, sys, numpy as np, lentil
+names = %r
+objs = [lentil.Plane(ptype=n) for n in names]
+objs += [lentil.Pupil(amplitude=np.ones((4, 4)), pixelscale=1e-3, focal_length=2.0), lentil.Image(), lentil.Tilt(x=1e-6, y=0.0)]
+objs += [lentil.Wavefront(5e-7), lentil.Wavefront(5e-7, ptype=lentil.pupil, focal_length=2.0), lentil.Wavefront(5e-7, ptype=lentil.image)]
+sys.stdout.buffer.write(pickle.dumps(objs))
+"""
+
+
+def _foreign_products(L, names, hashseed):
+    """Durable state crossing a process boundary: planes and wavefronts saved (pickled) by another interpreter -- one with a different
+    string-hash seed, as any later session or spawned worker has -- are loaded here and used with objects made here.
+    -> list of (plane class, plane type, wavefront type, outcome) for loaded-plane x local-wavefront and local-plane x loaded-wavefront."""
+    import pickle
+    import subprocess
+    import sys
+    root = os.path.dirname(os.path.dirname(os.path.abspath(L.__file__)))
+    env = dict(os.environ, PYTHONHASHSEED=str(int(hashseed)), PYTHONPATH=root, PYTHONDONTWRITEBYTECODE='1')
+    p = subprocess.run([sys.executable, '-c', _FOREIGN % (list(names),)], env=env, capture_output=True, timeout=120)
+    if p.returncode != 0:
+        raise RuntimeError('the saving interpreter failed: %s' % p.stderr.decode()[-300:])
+    objs = pickle.loads(p.stdout)
+    planes, waves = objs[:-3], objs[-3:]
+    local_w = [L.Wavefront(5e-7), L.Wavefront(5e-7, ptype=L.pupil, focal_length=2.0), L.Wavefront(5e-7, ptype=L.image)]
+    local_p = [L.Plane(ptype=n) for n in names]
+    out = []
+    for ps, ws in ((planes, local_w), (local_p, waves)):
+        for pl in ps:
+            for w in ws:
+                try:
+                    got = str(pl.multiply(w).ptype)
+                except Exception as e:      # noqa
+                    got = type(e).__name__
+                out.append((type(pl).__name__, str(pl.ptype), str(w.ptype), got))
+    return out
+
+
+def _churn_spectra(L, s, opname, operands, left):
+    """A loop over a catalogue: each entry is made into a Spectrum, combined once with `s` and dropped before the next is made, so
+    successive operands (and their arrays) tend to live at the same addresses.  -> [(wave, value, waveunit) of each result]"""
+    out = []
+    for wave, value, unit in operands:
+        t = L.radiometry.Spectrum(np.array(wave, dtype=float), np.array(value, dtype=float), waveunit=unit)
+        try:
+            r = getattr(t, opname)(s) if left else getattr(s, opname)(t)
+            out.append((np.array(r.wave, dtype=float).tolist(), np.array(r.value, dtype=float).tolist(), str(r.waveunit)))
+            del r
+        except Exception as e:      # noqa
+            out.append(type(e).__name__)
+        del t
+    return out
+
+
+def _churn_views(L, n, seeds, weight):
+    """A Monte-Carlo loop: every trial builds a new two-segment pupil (segments disjoint pixel-wise, bounding boxes overlapping, so the
+    two fields are merged when the views are formed), sends a new wavefront through it, reads the views and drops everything before
+    the next trial.  -> [(|intensity - |field|^2|, |insert - weight*|field|^2|, both relative to max |field|^2)]"""
+    n = int(n)
+    mask = np.zeros((2, n, n))
+    h = n // 2
+    mask[0, 1:h + 3, 1:h + 1] = np.triu(np.ones((h + 2, h)))
+    mask[1, h - 2:n - 1, h - 2:n - 1] = np.tril(np.ones((n - h + 1, n - h + 1)))
+    mask[1][mask[0] > 0] = 0
+    sup = mask.sum(axis=0)
+
+    def trial(amp, opd, wl):
+        # (a function of its own, as in user code: every object of a trial is released when it returns)
+        p = L.Pupil(amplitude=amp, opd=opd, mask=mask, pixelscale=1.0 / n, focal_length=10.0)
+        w = L.Wavefront(wl) * p
+        ref = np.abs(w.field) ** 2
+        scale = max(float(ref.max()), 1e-300)
+        e_int = float(np.max(np.abs(w.intensity - ref))) / scale
+        acc = w.insert(np.zeros(ref.shape), weight)
+        e_ins = float(np.max(np.abs(acc - weight * ref))) / scale
+        return e_int, e_ins, len(w.data)
+
+    out = []
+    for sd in seeds:
+        g = np.random.Generator(np.random.PCG64(int(sd)))
+        amp = g.uniform(0.5, 1.5, size=sup.shape) * sup
+        opd = g.normal(scale=6e-8, size=sup.shape)
+        out.append(trial(amp, opd, float(g.uniform(4.5e-7, 9e-7))))
+    return out
+
+
+def _crop_ulp(L, s, i, j, klo, khi):
+    """Crop limits a few units in the last place away from two of the spectrum's own current samples (what limits computed elsewhere, or
+    samples that went through a unit round trip, look like).  The closed range is exact.  -> the limits used"""
+    w = np.asarray(s.wave, dtype=float)
+    n = len(w)
+    i = max(0, min(int(i), n - 1))
+    j = max(i, min(int(j), n - 1))
+    lo, hi = float(w[i]), float(w[j])
+    for _ in range(abs(int(klo))):
+        lo = float(np.nextafter(lo, np.inf if klo > 0 else -np.inf))
+    for _ in range(abs(int(khi))):
+        hi = float(np.nextafter(hi, np.inf if khi > 0 else -np.inf))
+    if int(np.count_nonzero((w >= lo) & (w <= hi))) < 2:
+        return None         # (the spectrum has shrunk since the step was planned: nothing sensible to cut)
+    s.crop(lo, hi)
+    return (lo, hi)
+
+
+def _pad_nonfinite(L, s, what):
+    """Pad one step beyond both ends with values that are not finite (a sentinel for "no data")."""
+    w = np.asarray(s.wave, dtype=float)
+    d = float(w[1] - w[0])
+    v = {'inf': np.inf, 'nan': np.nan, '-inf': -np.inf}[what]
+    s.pad((float(w[0]) - d, float(w[-1]) + d), values=(v, v))
+    return None
+
+
+def _crop_finite(L, s):
+    """Back to the samples that hold data."""
+    w = np.asarray(s.wave, dtype=float)
+    ok = np.flatnonzero(np.isfinite(np.asarray(s.value, dtype=float)))
+    if ok.size >= 2:
+        s.crop(float(w[ok[0]]), float(w[ok[-1]]))
+    return None
 
 
 def _assign_values(L, s, seed):
@@ -162,6 +303,14 @@ FNS = {
     # ---- radiometry
     'Spectrum': lambda L, wave, value, **k: L.radiometry.Spectrum(wave, value, **k),
     'Blackbody': lambda L, wave, temp, **k: L.radiometry.Blackbody(wave, temp, **k),
+    'h.crop_ulp': _crop_ulp,
+    'h.pad_nonfinite': _pad_nonfinite,
+    'h.crop_finite': _crop_finite,
+    'pylist': lambda L, values: list(values),
+    'churn.planes': _churn_planes,
+    'churn.views': _churn_views,
+    'churn.spectra': _churn_spectra,
+    'foreign.products': _foreign_products,
     'Material': lambda L, **k: L.radiometry.Material(**k),
     # the product a Material hands out: contam * transmission (or emission).  The two operands are named in the event so that the
     # arithmetic oracles can judge it like any other product
